@@ -5,7 +5,7 @@
 Require Extraction.
 Require Import ExtrOcamlBasic.
 From Coq Require Import ZArith NArith List.
-From RQ Require Import Base Apply ApplySpec Distributor Parser Writer.
+From RQ Require Import Base Apply ApplySpec Distributor Parser Writer Quilt.
 
 Definition dist_N := Distributor.distribute N N.eqb.
 Definition classes_ok_N := Distributor.classes_ok N N.eqb.
@@ -15,4 +15,5 @@ Definition placements_ok_N := ApplySpec.placements_ok N N.eqb.
 Definition rewrite_ok_N := ApplySpec.rewrite_ok N N.eqb.
 
 Extraction "model.ml" dist_N classes_ok_N apply_N rollback_N placements_ok_N rewrite_ok_N
-  parse_patch write_patch write_rej strip_path is_unsafe components.
+  parse_patch write_patch write_rej strip_path is_unsafe components
+  cmd_push normalize read_series split_lines concat_lines.
